@@ -108,9 +108,14 @@ Definition reconfigure_graph_st {K S} (leb : K -> K -> bool)
       (s', mkGraph ts (gtop g) ed (gmeta g))
   end.
 
+(* [if top is None: top = g.top]: an implicit top is resolved on the ORIGINAL
+   graph, before the triples are sorted (F31 repair) *)
+Definition reconfigure_top (g : graph) (top : option atom) : option atom :=
+  match top with Some t => Some t | None => graph_top g end.
+
 Definition reconfigure_st {K S} (leb : K -> K -> bool) (m : model) (g : graph)
   (top : option atom) (key : option (S -> str -> S * K)) (s : S) : outcome tree :=
-  configure m (snd (reconfigure_graph_st leb key s g)) top.
+  configure m (snd (reconfigure_graph_st leb key s g)) (reconfigure_top g top).
 
 Definition reconfigure {K} (leb : K -> K -> bool) (m : model) (g : graph)
   (top : option atom) (key : option (str -> K)) : outcome tree :=
